@@ -11,8 +11,8 @@ Definition zexpr := expr.
 
 Definition check_parse (al : alg) (d : nat) (entries : seq zvec) (e : expr) (t : tol)
     (o : obs (seq dyad)) : bool :=
-  match parse al d entries e, o with
-  | inr x, OVal v _ => close_svec v (sv_core x) (sv_num x) (sv_den x) t
+  match parse al d entries [::] [::] e, o with
+  | inr x, OVal v _ => close_svec v (sv_core x) (sv_num x) (sv_den x * sv_div x * sv_div x)%R t
   | inl (PExn er), OExn er' => exn_eqb er er'
   | inl PUnrepresentable, _ => true
   | _, _ => false
@@ -20,7 +20,7 @@ Definition check_parse (al : alg) (d : nat) (entries : seq zvec) (e : expr) (t :
 
 (* 1 = representable (a real comparison was made), 0 = skipped *)
 Definition parse_representable (al : alg) (d : nat) (entries : seq zvec) (e : expr) : bool :=
-  match parse (R := [comRingType of Z]) al d entries e with
+  match parse (R := [comRingType of Z]) al d entries [::] [::] e with
   | inl PUnrepresentable => false
   | _ => true
   end.
